@@ -895,6 +895,7 @@ class C01Edits(Oracle):
         self.pre_digest = None
         self.appended: list[tuple[str, str, int]] = []     # (line id, mark token, tick)
         self.edit_ticks: list[int] = []
+        self.accepted_live_edits = 0
 
     def _digest(self):
         w = self.w
@@ -911,6 +912,24 @@ class C01Edits(Oracle):
     def after_edit(self, kind, expect, accepted, old, new):
         w = self.w
         self.edit_ticks.append(w.tick_no)
+        if kind.startswith("macro_"):
+            # C41: a macro that has already started may not be edited or removed
+            name = getattr(w, "macro_edit", ("?", ""))[0]
+            ctx = "@edit" if self.accepted_live_edits else ""
+            if accepted and self.pre_run_active:
+                self.accepted_live_edits += 1
+            if expect == "reject" and accepted and self.pre_run_active:
+                self.v("C41", "C41.started_macro_edit_accepted" + ctx, kind,
+                       f"macro {name} had already run (body effect seen or a call completed) and the edit {kind} was accepted")
+            elif expect == "reject" and not accepted and self._digest() != self.pre_digest:
+                self.v("C41", "C41.rejected_macro_edit_changed_state", kind, "a rejected macro edit changed method / state")
+            elif expect == "reject":
+                self.res.probe("started_macro_edit_rejected")
+            elif expect == "free":
+                self.res.probe("unstarted_macro_edit_" + ("accepted" if accepted else "rejected"))
+            return
+        if accepted and self.pre_run_active:
+            self.accepted_live_edits += 1
         if expect == "reject":
             if accepted and self.pre_run_active:
                 self.v("C01", "C01.started_line_edit_accepted", kind, "an edit that changes a started line was accepted")
